@@ -38,6 +38,8 @@ func main() { vm.Main("C08", run) }
 // entry is one decoder under test.
 type entry struct {
 	name string
+	// lenient: the generated "valid" encoding may legitimately be rejected (random key material, foreign chunk)
+	lenient bool
 	// gen returns a valid encoding and the offsets of VarInt length prefixes inside it whose
 	// hostile values (negative / larger than the remaining input) MUST be reported as errors.
 	gen func(r *vm.Rand) (valid []byte, prefixes []prefix)
@@ -74,26 +76,30 @@ func str(r *vm.Rand) string {
 	return []string{"", "a", "minecraft:stone", "héllo wörld", strings.Repeat("x", 130)}[r.Intn(5)]
 }
 
+// buildChunk makes a chunk whose encoding consists mostly of small bytes: at most 8 distinct states with ids
+// below 128 per section (4-bit indices below 8), a single biome, zero height maps. A hostile VarInt written
+// into such an encoding shifts the parse, but what the decoder then reads as lengths stays small - the inputs
+// test the decoders, not the allocator (declared lengths above 2^24 are outside the workload, see DESIGN).
 func buildChunk(r *vm.Rand, secs int) *level.Chunk {
 	c := level.EmptyChunk(secs)
-	n := len(block.StateList)
 	for si := range c.Sections {
-		k := []int{0, 1, 10, 40, 300}[r.Intn(5)]
+		k := []int{0, 1, 3, 7}[r.Intn(4)]
+		vals := make([]int, 0, 8)
 		for j := 0; j < k; j++ {
-			c.Sections[si].SetBlock(r.Intn(4096), level.BlocksState(r.Intn(n)))
+			vals = append(vals, r.Intn(100))
 		}
-		for j := 0; j < []int{0, 2, 6, 20}[r.Intn(4)]; j++ {
-			c.Sections[si].Biomes.Set(r.Intn(64), level.BiomesState(r.Intn(60)))
+		for j := 0; j < k*3; j++ {
+			c.Sections[si].SetBlock(r.Intn(4096), level.BlocksState(vals[r.Intn(len(vals))]))
 		}
-	}
-	for j := 0; j < 10; j++ {
-		c.HeightMaps.MotionBlocking.Set(r.Intn(256), r.Intn(secs*16+1))
-		c.HeightMaps.WorldSurface.Set(r.Intn(256), r.Intn(secs*16+1))
+		if r.Bool() {
+			c.Sections[si].Biomes.Set(0, level.BiomesState(r.Intn(60)))
+			c.Sections[si].Biomes.Set(0, 0)
+		}
 	}
 	for j := r.Intn(3); j > 0; j-- {
 		var be level.BlockEntity
-		be.PackXZ(r.Intn(16), r.Intn(16))
-		be.Y, be.Type = int16(r.Intn(300)), block.EntityType(r.Intn(20))
+		be.PackXZ(r.Intn(8), r.Intn(16))
+		be.Y, be.Type = int16(r.Intn(100)), block.EntityType(r.Intn(20))
 		be.Data = nbt.RawMessage{Type: nbt.TagCompound, Data: refnbt.EncodePayload(&refnbt.Value{Tag: refnbt.Compound, Comp: []refnbt.Entry{{Name: "id", V: refnbt.St("x")}}})}
 		c.BlockEntity = append(c.BlockEntity, be)
 	}
@@ -104,13 +110,10 @@ func entries(nStates, nBiomes int) []entry {
 	blocksKind := refwire.PalKind{Blocks: true, RegistrySize: nStates}
 	biomesKind := refwire.PalKind{Blocks: false, RegistrySize: nBiomes}
 	genPal := func(r *vm.Rand, k refwire.PalKind, length int) ([]byte, []prefix) {
-		nv := []int{1, 2, 5, 17, 40, 300}[r.Intn(6)]
-		if nv > k.RegistrySize {
-			nv = k.RegistrySize / 2
-		}
+		nv := []int{1, 2, 5, 8}[r.Intn(4)]
 		vals := make([]int, length)
 		for i := range vals {
-			vals[i] = r.Intn(nv) * (k.RegistrySize / nv)
+			vals[i] = r.Intn(nv) * 7 // small ids, indices below 8: the encoding has few bytes >= 0x80
 		}
 		w := refwire.WritePaletted(vals, k)
 		// locate the prefixes: bits byte, then (single: value) / (indirect: palette length + entries) / (direct: nothing), then data length
@@ -205,10 +208,7 @@ func entries(nStates, nBiomes int) []entry {
 		entry{name: "BitStorage.ReadFrom+Fix", gen: func(r *vm.Rand) ([]byte, []prefix) {
 			bs := level.NewBitStorage(5, 4096, nil)
 			for i := 0; i < 20; i++ {
-				bs.Set(r.Intn(4096), r.Intn(32))
-			}
-			if r.Bool() {
-				bs = level.NewBitStorage(9, 256, nil)
+				bs.Set(r.Intn(4096), r.Intn(4))
 			}
 			return wbuf(bs), []prefix{{0, "data-array-length"}}
 		}, run: func(in []byte) error {
@@ -271,7 +271,7 @@ func entries(nStates, nBiomes int) []entry {
 		entry{name: "user.Property.ReadFrom", gen: func(r *vm.Rand) ([]byte, []prefix) {
 			return wbuf(user.Property{Name: "textures", Value: str(r), Signature: "sig"}), []prefix{{0, "string-length"}}
 		}, run: func(in []byte) error { var p user.Property; _, err := p.ReadFrom(rd(in)); return err }},
-		entry{name: "user.PublicKey.ReadFrom", gen: func(r *vm.Rand) ([]byte, []prefix) {
+		entry{name: "user.PublicKey.ReadFrom", lenient: true, gen: func(r *vm.Rand) ([]byte, []prefix) {
 			return wbuf(pk.Long(r.Int64B()), pk.ByteArray(r.Bytes(r.Intn(200))), pk.ByteArray(r.Bytes(256))), []prefix{{8, "byte-array-length"}}
 		}, run: func(in []byte) error { var p user.PublicKey; _, err := p.ReadFrom(rd(in)); return err }},
 		entry{name: "sign.PackedMessageBody.ReadFrom", gen: func(r *vm.Rand) ([]byte, []prefix) {
@@ -287,7 +287,7 @@ func entries(nStates, nBiomes int) []entry {
 			_, err := m.ReadFrom(rd(in))
 			return err
 		}},
-		entry{name: "sign.Session.ReadFrom", gen: func(r *vm.Rand) ([]byte, []prefix) {
+		entry{name: "sign.Session.ReadFrom", lenient: true, gen: func(r *vm.Rand) ([]byte, []prefix) {
 			return wbuf(pk.UUID{3}, pk.Long(5), pk.ByteArray(r.Bytes(40)), pk.ByteArray(r.Bytes(30))), nil
 		}, run: func(in []byte) error { var m sign.Session; _, err := m.ReadFrom(rd(in)); return err }},
 		entry{name: "sign.FilterMask.ReadFrom", gen: func(r *vm.Rand) ([]byte, []prefix) { return wbuf(pk.VarInt(2), pk.BitSet{1, 2}), nil }, run: func(in []byte) error {
@@ -307,7 +307,7 @@ func entries(nStates, nBiomes int) []entry {
 		}})
 	}
 	// height maps whose long count does not match the section count
-	es = append(es, entry{name: "Chunk.ReadFrom(foreign height maps)", gen: func(r *vm.Rand) ([]byte, []prefix) {
+	es = append(es, entry{name: "Chunk.ReadFrom(foreign height maps)", lenient: true, gen: func(r *vm.Rand) ([]byte, []prefix) {
 		return wbuf(buildChunk(r, []int{1, 2, 8, 24}[r.Intn(4)])), nil
 	}, run: func(in []byte) error { _, err := level.EmptyChunk(4).ReadFrom(rd(in)); return err }})
 	// registries and tags
@@ -333,38 +333,59 @@ func entries(nStates, nBiomes int) []entry {
 }
 
 // hostile VarInt values written over a position
-var hostile = []int32{-1, -2147483648, -128, 0, 1, 1 << 16, 1 << 20}
+var hostile = []int32{-1, -2147483648, -128, 0, 1, 1 << 14, 1 << 16}
 
-// bigVarint reports whether the bytes contain a VarInt-looking run that decodes to more than 2^24 (allocation guard).
+// bigVarint reports whether some offset of b starts a VarInt that decodes to a positive value above 2^24
+// (allocation guard: decoders may allocate a declared length before validating it; negative values are fine).
 func bigVarint(b []byte) bool {
-	run := 0
-	for _, x := range b {
-		if x&0x80 != 0 {
-			run++
+	for i := 0; i+3 < len(b); i++ {
+		if b[i]&0x80 == 0 || b[i+1]&0x80 == 0 || b[i+2]&0x80 == 0 {
 			continue
 		}
-		if run >= 4 || (run == 3 && x >= 0x08) {
+		if v, _, err := refwire.DecVarInt(b[i:]); err == nil && v > 1<<24 {
 			return true
 		}
-		run = 0
 	}
-	return run >= 4
+	return false
 }
 
 func exec(c *vm.Ctx, e *entry, in []byte, origin string) (err error, panicked bool) {
+	if origin != "valid" && bigVarint(in) {
+		c.Cover("skipped.declares-more-than-2^24")
+		return errors.New("skipped"), false
+	}
 	c.Inflight(e.name + " " + origin + " " + vm.Hex(in))
-	panicked = c.Guard("decode/"+e.name, func() any {
+	panicked = c.Guard("decode", func() any {
 		return map[string]any{"decoder": e.name, "origin": origin, "input_hex": vm.Hex(in), "input_len": len(in)}
 	}, func() { err = e.run(in) })
 	c.Eval(0, false)
 	return
 }
 
+// fixedPrefix: decoders whose length prefix is a fixed-width integer (Short/Int/Long/VarLong): writing a
+// VarInt over it or flipping its bits declares gigabytes of elements, which only tests the allocator.
+func fixedPrefix(name string) bool {
+	return strings.HasPrefix(name, "Ary[Short]") || strings.HasPrefix(name, "Ary[Int]") || strings.HasPrefix(name, "Ary[VarLong]") || strings.HasPrefix(name, "Ary[Byte]")
+}
+
+// carriesNBT: decoders whose input embeds NBT. NBT lengths are 4-byte big-endian fields, so a bit flip, a
+// random byte or the value 1 landing on their top byte declares millions of (large) elements; hostile NBT
+// lengths are C03's business (with its own bound), here only truncation and VarInt overwrites that cannot
+// produce a small positive top byte are applied to such decoders.
+func carriesNBT(name string) bool {
+	for _, k := range []string{"chat.Message.ReadFrom(NBT)", "chat.Type", "BlockEntity", "Chunk.ReadFrom", "Registry[", "NBTField"} {
+		if strings.Contains(name, k) {
+			return true
+		}
+	}
+	return false
+}
+
 func fuzzEntry(c *vm.Ctx, r *vm.Rand, e *entry) {
 	valid, prefixes := e.gen(r)
 	if err, pan := exec(c, e, valid, "valid"); pan {
 		return
-	} else if err != nil && !strings.Contains(e.name, "foreign") {
+	} else if err != nil && !e.lenient {
 		c.Violation("decode/"+e.name+"/valid-input-rejected", "the decoder rejects an encoding the library itself produced: "+err.Error(), map[string]any{"decoder": e.name, "input_hex": vm.Hex(valid)})
 		return
 	}
@@ -405,6 +426,16 @@ func fuzzEntry(c *vm.Ctx, r *vm.Rand, e *entry) {
 		exec(c, e, valid[:k], "truncated")
 	}
 	c.Cover("mut.truncation")
+	if fixedPrefix(e.name) {
+		// targeted: the fixed-width prefix set to small hostile values (negative, zero, a little too many)
+		w := map[string]int{"Ary[Short]": 2, "Ary[Int]": 4, "Ary[VarLong]": 1, "Ary[Byte]": 1}[e.name[:strings.Index(e.name, "]")+1]]
+		for _, fill := range [][]byte{bytes.Repeat([]byte{0xff}, w), make([]byte, w), append(make([]byte, w-1), 100)} {
+			in := append(append([]byte{}, fill...), valid[w:]...)
+			exec(c, e, in, "fixed-width-prefix")
+		}
+		c.Cover("decoder." + e.name)
+		return
+	}
 	// hostile VarInt written at every offset (first 96 bytes exhaustively, sampled beyond)
 	var offs []int
 	for i := 0; i < len(valid) && i < 96; i++ {
@@ -415,6 +446,9 @@ func fuzzEntry(c *vm.Ctx, r *vm.Rand, e *entry) {
 	}
 	for _, off := range offs {
 		for _, h := range hostile {
+			if h == 1 && carriesNBT(e.name) {
+				continue
+			}
 			enc := refwire.EncVarInt(h)
 			in := append(append([]byte{}, valid[:off]...), enc...)
 			if off+1 < len(valid) {
@@ -424,6 +458,10 @@ func fuzzEntry(c *vm.Ctx, r *vm.Rand, e *entry) {
 		}
 	}
 	c.Cover("mut.hostile-varint-at-every-offset")
+	if carriesNBT(e.name) {
+		c.Cover("decoder." + e.name)
+		return
+	}
 	// bit flips (low two bits only: higher bits of a big-endian NBT length would declare gigabytes)
 	for k := 0; k < 64 && len(valid) > 0; k++ {
 		in := append([]byte{}, valid...)
@@ -606,7 +644,9 @@ func hostileServer(c *vm.Ctx, r *vm.Rand) {
 		if conn.ReadPacket(&p) != nil || conn.ReadPacket(&p) != nil { // handshake, login start
 			return
 		}
+		// net.Pipe has no buffer: while the script goes out keep reading whatever the bot answers, or both ends block in Write
 		if stage == 0 {
+			go io.Copy(io.Discard, raw)
 			for _, sp := range script {
 				if conn.WritePacket(sp) != nil {
 					return
@@ -619,6 +659,7 @@ func hostileServer(c *vm.Ctx, r *vm.Rand) {
 			return
 		}
 		if stage == 1 {
+			go io.Copy(io.Discard, raw)
 			for _, sp := range script {
 				if conn.WritePacket(sp) != nil {
 					return
@@ -630,6 +671,7 @@ func hostileServer(c *vm.Ctx, r *vm.Rand) {
 		if conn.ReadPacket(&p) != nil {
 			return
 		}
+		go io.Copy(io.Discard, raw)
 		for _, sp := range script {
 			if conn.WritePacket(sp) != nil {
 				return
@@ -739,7 +781,7 @@ func run(c *vm.Ctx) {
 	nStates := len(block.StateList)
 	es := entries(nStates, 63)
 	r := c.Rand("fuzz")
-	rounds := c.Scale(160, 3200)
+	rounds := c.Scale(128, 3200)
 	for i := 0; i < rounds; i++ {
 		for ei := range es {
 			e := &es[ei]
